@@ -12,15 +12,43 @@ def main():
     emb = make_cases(beh[::5], "bw", sizes, run, zq=0)
     for k, c in enumerate(emb):
         c["scale"] = [7, 1000, 65536][k % 3]
+    # automatic zoom ladders need inputs large enough for a level to be kept (levels are pruned by size):
+    # longer seeded inputs, small items_per_slot, initial zoom size 10 or 160, single and two pass
+    import random as _r
+    rg = _r.Random(run.seed + 7)
+    auto = []
+    for k in range(12 if run.thorough else 4):
+        items, L = [], 0
+        for c in (1, 2):
+            p = rg.randint(0, 5)
+            for _ in range(rg.choice([150, 260])):
+                ln = rg.randint(1, 5)
+                s_ = p if True else max(0, p - rg.choice([0, 0, 2]))
+                items.append([c, s_, s_ + ln, rg.randint(1, 3)])
+                p = s_ + ln + rg.choice([0, 0, 1, 3, 25])
+            L = max(L, p + 5)
+        if False:
+            items.sort(key=lambda it: (it[0], it[1]))
+        auto.append({"kind": "bw", "chroms": [L, L], "items": items, "vmap": "int", "allq": 0, "zq": 0, "mz": [], "scale": 1, "asq": "bed3", "long": 0,
+                     "msum": {"bases": 0, "sum": 0, "sumsq": 0, "min": 0, "max": 0, "int": 1},
+                     "opts": {"ips": 4, "bs": 3, "zmode": "auto", "izs": [10, 160][k % 2], "maxz": 10, "zooms": [], "compress": k % 2, "inmem": 1, "rt": "multi", "threads": 2,
+                              "pass": 1 + (k // 2) % 2, "chan": 100, "sort": "all"}})
     def nt(o):
+        if o["opts"].get("zmode") == "auto":
+            return True
         # has a gap >= a resolution, or a value spanning >= 2 records of some level
-        z = min(o["opts"]["zooms"])
+        z = min(o["opts"]["zooms"] or [1])
         its = o["items"]
         gap = any(its[i + 1][0] == its[i][0] and its[i + 1][1] - its[i][2] >= z for i in range(len(its) - 1))
         span = any(it[2] - it[1] > z for it in its)
         return gap or span
     desc = lambda o: {k: o["obs"].get(k) for k in ("result", "err", "zooms", "zint", "unmapped")}
-    obs = judge(run, "C07", "Obs_BigWig", cases + emb, nt, desc)
+    obs = judge(run, "C07", "Obs_BigWig", cases + emb + auto, nt, desc)
+    autos = [o for o in obs if o["opts"].get("zmode") == "auto"]
+    run.cov["automatic_zoom_cases"] = len(autos)
+    run.cov["automatic_zoom_levels_kept"] = [len(o["obs"].get("zooms", [])) for o in autos]
+    if autos and not any(len(o["obs"].get("zooms", [])) >= 2 for o in autos):
+        raise ToolError("vacuity: no automatic-zoom case kept two levels: %s" % run.cov["automatic_zoom_levels_kept"])
     run.cov["rule"] = ("every layout within the TLC bounds x manual zoom lists x items_per_slot; free options paired; a fifth replayed under affine "
                        "position embeddings x7/x1000/x65536; non-trivial = a gap >= the finest resolution or a value longer than it; distinct by (items, ips, zooms, scale)")
     run.sample({"items": obs[len(obs) // 3]["items"], "opts": obs[len(obs) // 3]["opts"], "zooms": obs[len(obs) // 3]["obs"].get("zooms")})
